@@ -737,7 +737,14 @@ func (c *cutter) doHuffman(isFirstBlock bool, lLengths []uint32, dLengths []uint
 			decodedLen += length
 
 		} else {
-			// It's the end-of-block.
+			// It's the end-of-block. If no checkpoint was passed, nothing has
+			// yet verified that this code itself ends within maxEncodedLen.
+			if checkpointIndex < 0 {
+				encodedBits := 8*uint64(c.bits.index) - uint64(c.bits.nBits)
+				if encodedBits > 8*uint64(c.maxEncodedLen) {
+					return errInternalNoProgress
+				}
+			}
 			return nil
 		}
 
